@@ -285,6 +285,47 @@ theorem clear_evicts_pinned_counterexample :
       (c'.findEntry ⟨0, 0⟩).map (·.pin) = some 1 ∧ c'.clear.findEntry ⟨0, 0⟩ = none := by
   refine ⟨_, _, rfl, rfl, ?_, ?_⟩ <;> decide
 
+/-- the calls a client can make on a cache (`clear` is excluded: it drops pinned entries, see
+`clear_evicts_pinned_counterexample`) -/
+inductive COp where
+  | getOrInsert (k : Key) (initOk : Bool) (val : Nat)
+  | get (k : Key)
+  | unpin (k : Key)
+  | write (k : Key) (v : Nat)
+
+def applyOp (c : Cache) : COp → Cache
+  | .getOrInsert k initOk val => (c.getOrInsert k initOk val).1
+  | .get k => (c.get k).1
+  | .unpin k => c.unpin k
+  | .write k v => c.write k v
+
+/-- the structural invariant for EVERY operation sequence: starting from `PageCache::new`, after any
+number of `get_or_insert` (with succeeding or failing `init`), `get`, unpin (drop of a `PageRef`)
+and page writes, in any order and on any keys, every shard has unique keys, an index that is
+exactly the vector, and at most `cap` entries -/
+theorem cinv_reachable {total : Nat} {b : Option Budget} {c : Cache}
+    (h : Cache.new total b = some c) (ops : List COp) : CInv (ops.foldl applyOp c) := by
+  have h0 : CInv c := (new_inv h).1
+  clear h
+  induction ops generalizing c with
+  | nil => exact h0
+  | cons op ops ih =>
+    apply ih
+    cases op with
+    | getOrInsert k i v => exact len_le_cap k i v h0
+    | get k => exact get_inv k h0
+    | unpin k => exact unpin_inv k h0
+    | write k v => exact write_inv k v h0
+
+/-- … hence no shard ever exceeds its capacity, whatever the history -/
+theorem len_le_cap_reachable {total : Nat} {b : Option Budget} {c : Cache}
+    (h : Cache.new total b = some c) (ops : List COp) :
+    ∀ sh ∈ (ops.foldl applyOp c).shards, sh.entries.length ≤ sh.cap :=
+  fun sh hm => ((cinv_reachable h ops).2 sh hm).2
+
+/-- non-vacuity: `Cache.new` succeeds -/
+example : ∃ c, Cache.new 64 none = some c := ⟨_, rfl⟩
+
 end TurVerif.C35
 
 /-! ## The miss path of `get_or_insert` is NOT one critical section: read-locked lookup, then
